@@ -135,6 +135,8 @@ def inline_new_helpers(prog):
                     continue        # recursive helper
                 if t.get("target") is None:
                     continue        # diverging call
+                if k not in prog.raw_fns:
+                    prog.raw_fns[k] = copy.deepcopy(f)      # the function as written, for rules that follow calls themselves
                 lo, bo = len(f["locals"]), len(f["blocks"])
                 f["locals"] = f["locals"] + copy.deepcopy(g["locals"])
                 names = f.setdefault("names", {})
@@ -190,8 +192,10 @@ def inline_new_helpers(prog):
     inlined_callees = {c for _, c in done}
     for ck in sorted(inlined_callees - still):
         f = prog.fns.get(ck)
-        if f is None or "{closure" in ck:
-            continue        # (a closure stays: its construction site still names it)
+        if f is None:
+            continue
+        # (a closure that was only ever called by its own function is gone too; the aggregate that builds its
+        # environment stays and is ignored by the call graph)
         prog.helper_bodies[ck] = prog.fns[ck]
         del prog.fns[ck]
         prog.fn_crate.pop(ck, None)
